@@ -373,12 +373,14 @@ def gen_edge(kind, idx):
         '11': {'results': [['none']]},                        # scheduled with False == 0: runs once
         '12': {'results': [['num', 'nan'], ['none']]},        # nan result: not re-scheduled -> 1
         '13': {'results': [['none']]},                        # scheduled with nan: never
+        '14': {'results': [['num', 'fsub'], ['none']]},       # a float SUBCLASS (numpy.float64-like) is a number -> 2
+        '15': {'results': [['num', 'isub'], ['none']]},       # an int SUBCLASS (IntEnum-like) is a number -> 2
     }
     th = [['sched_x', 1, 'i0'], ['sched_x', 2, 'f0'], ['sched_x', 3, 'nf0'], ['sched', 4, -1, 64], ['sched', 5, 1, 64],
           ['sched', 6, 1, 64], ['sched', 7, 1, 32], ['sched', 8, 1, 32], ['sched_x', 9, 'inf'], ['sched_x', 10, 'none'],
-          ['sched_x', 11, 'false'], ['sched', 12, 1, 64], ['sched_x', 13, 'nan'], ['sleep', 150]]
+          ['sched_x', 11, 'false'], ['sched', 12, 1, 64], ['sched_x', 13, 'nan'], ['sched', 14, 1, 64], ['sched', 15, 1, 64], ['sleep', 150]]
     counts = {'1': 2, '2': 2, '3': 2, '4': 2, '5': 1, '6': 1, '7': 1, '8': 1, '9': 0, '10': 1 if kind == 'app' else 0, '11': 1,
-              '12': 1, '13': 0}
+              '12': 1, '13': 0, '14': 2, '15': 2}
     return {'name': '%s-edge-values' % kind, 'clock': kind, 'index': idx, 'tempo': [2, 1], 'tasks': tasks, 'threads': [th],
             'final': 'clear', 'before_final': 4.0, 'after_final': 0.05, 'expect_counts': counts, 'wait_counts': counts,
             'expect_outcome': {'10': 'ok' if kind == 'app' else 'TypeError', '9': 'ok'}}
@@ -567,7 +569,8 @@ def gen_stress(rng, kind, idx, heavy=False):
     for tid in range(1, ntasks + 1):
         nres = rng.choice([0, 0, 1, 1, 2, 3])
         results = [rng.choice([['delta', rng.choice([0, 1, 1, 2, 3]), 64], ['delta', rng.choice([0, 1, 2]), 64],
-                               ['num', 'i0'], ['num', 'f0'], ['num', 'nf0'], ['delta', -1, 64]]) for _ in range(nres)]
+                               ['num', 'i0'], ['num', 'f0'], ['num', 'nf0'], ['delta', -1, 64],
+                               ['num', 'fsub'], ['num', 'isub']]) for _ in range(nres)]
         results.append(rng.choice([['none'], ['none'], ['raise'], ['raise'], ['stop'], ['str'], ['bool'],
                                    ['num', 'false'], ['num', 'true'], ['num', 'empty'], ['num', 'list'],
                                    ['exc', rng.choice(EXC_TYPES)], ['exc', rng.choice(EXC_TYPES)]]))
